@@ -20,7 +20,7 @@ FORBIDDEN = re.compile(r"\b(sorry|admit|native_decide|bv_decide|implemented_by|u
 
 # property -> (theorem module, theorems to audit, drive args per tier, nontrivial rule)
 PROPS = {
-    "C01": dict(modules=["PolytuneModel.Thm.C01", "PolytuneModel.Thm.C01batches"], theorems=["PolytuneModel.C01_batches_agree", "PolytuneModel.C01_batches_cover", "PolytuneModel.C01_honest_correct", "PolytuneModel.step_inv", "PolytuneModel.eval_label"], drive="C01", also=["C01m"], cases=dict(quick=60, thorough=600),
+    "C01": dict(modules=["PolytuneModel.Thm.C01", "PolytuneModel.Thm.C01batches", "PolytuneModel.Thm.GenArith"], theorems=["PolytuneModel.C01_batches_agree_gen", "PolytuneModel.Gen_chunkSizeIter_eq", "PolytuneModel.C01_batches_agree", "PolytuneModel.C01_batches_cover", "PolytuneModel.C01_honest_correct", "PolytuneModel.step_inv", "PolytuneModel.eval_label"], drive="C01", also=["C01m", "C19m"], cases=dict(quick=60, thorough=600),
                 rule="generated register circuits x inputs x n x p_eval x p_out x tmp_dir x capacity x schedule, plus AND chains on both sides of the 1000-gate batch boundary; non-trivial = has an AND gate or register reuse; distinct by (circuit, p_eval, p_out)"),
     "C02": dict(modules=["PolytuneModel.Thm.C03", "PolytuneModel.Thm.C02agree"], theorems=["PolytuneModel.C02_agreement", "PolytuneModel.openReg_detect_or_extract", "PolytuneModel.openOutput_sound", "PolytuneModel.C02_cex_missing_output_share", "PolytuneModel.C02_fixed_rejects_missing"], drive="C03", only="C02", cases=dict(quick=1, thorough=1),
                 rule="one forged field of one online message per run (13 fields x adversary role x n in {2,3} x 3 inputs); oracle: an honest Ok is f(x_H, x') for some x'; distinct by (n, phase, field, role)"),
@@ -38,7 +38,7 @@ PROPS = {
                 rule="every adversary message index x 8 byte-level classes (sampled in quick), structure-aware classes on nested vectors, crash after k-th message; oracle: Ok or Err, no panic, no hang, no allocation > 64x bytes + 1 MiB; distinct by (victim role, phase, class, outcome)"),
     "C09": dict(modules=["PolytuneModel.Thm.C09"], theorems=["PolytuneModel.C09_len_value_independent", "PolytuneModel.C09_len_formula", "PolytuneModel.C09_shares_msg", "PolytuneModel.C09_masked_msg", "PolytuneModel.C09_labels_msg", "PolytuneModel.C09_row_len"], drive="C09", cases=dict(quick=40, thorough=400),
                 rule="two executions per public configuration (different inputs and coins); per ordered pair the (phase,len) sequence vs the model's pattern of the public parameters; distinct by (circuit, p_eval, p_out)"),
-    "C10": dict(modules=["PolytuneModel.Thm.C10", "PolytuneModel.Thm.C10laand", "PolytuneModel.Thm.C01C10"], theorems=["PolytuneModel.C10_bucket", "PolytuneModel.C10_beaver", "PolytuneModel.C10_haand_pair", "PolytuneModel.combine_two", "PolytuneModel.C10_laand_rel", "PolytuneModel.C10_laand_valid", "PolytuneModel.andOK_of_beaver"], drive="C10", also=["C10u", "C10m", "C10l"], cases=dict(quick=8, thorough=40),
+    "C10": dict(modules=["PolytuneModel.Thm.C10", "PolytuneModel.Thm.C10laand", "PolytuneModel.Thm.C01C10", "PolytuneModel.Thm.GenArith"], theorems=["PolytuneModel.Gen_bucketSize_pos", "PolytuneModel.C10_bucket", "PolytuneModel.C10_beaver", "PolytuneModel.C10_haand_pair", "PolytuneModel.combine_two", "PolytuneModel.C10_laand_rel", "PolytuneModel.C10_laand_valid", "PolytuneModel.andOK_of_beaver"], drive="C10", also=["C10u", "C10m", "C10l"], cases=dict(quick=8, thorough=40),
                 rule="real coin toss + fashare + beaver_aand among n parties through wrappers; MAC relation for every ordered pair and index, AND relation for every triple, identical shared coins; distinct by (n, shares, triples)"),
     "C11": dict(modules=["PolytuneModel.Thm.C11", "PolytuneModel.Thm.C11kos"], theorems=["PolytuneModel.Kos.C11_kos_check_honest_spec", "PolytuneModel.Kos.M_comm", "PolytuneModel.Kos.clmulNat_eq_M", "PolytuneModel.OT.C11_cot", "PolytuneModel.OT.column_relation", "PolytuneModel.OT.C11_draws_agree", "PolytuneModel.OT.C11_in_step"], drive="C11", cases=dict(quick=20, thorough=1),
                 rule="two back-to-back KOS sessions (both role orders) per length incl. 8k+-1, 128k+-1; all-0 / all-1 / random choices; distinct by (length, choices, order)"),
@@ -46,12 +46,12 @@ PROPS = {
                 rule="real mpc futures under round-robin / seeded random / starving schedules, capacities 1, 2, 1024; exact deadlock detection; at most one outstanding send and receive per peer; distinct by (circuit, p_eval, p_out) x schedule"),
     "C13": dict(modules=["PolytuneModel.Thm.C13", "PolytuneModel.Thm.C13all2", "PolytuneModel.Thm.C13reach"], thorough_modules=["PolytuneModel.Thm.C13term", "PolytuneModel.Thm.C13n3"], thorough_theorems=["PolytuneModel.Server.C13_n2_terminates", "PolytuneModel.Server.C13_n3_leader1", "PolytuneModel.Server.C13_n3_leader0_consts"], theorems=["PolytuneModel.Server.C13_n2_all_setups", "PolytuneModel.Server.C13_n2_reachable_ok", "PolytuneModel.Server.closed_covers", "PolytuneModel.Server.C13_n2_leader0", "PolytuneModel.Server.C13_n2_leader1_consts", "PolytuneModel.Server.C13_n2_both_consts_no_dest", "PolytuneModel.Server.C13_n2_complete", "PolytuneModel.Server.C13_n2_reaches_end"], server="C13", cases=dict(quick=24, thorough=200), rule="compatible policies, seeded delivery orders of validate/run/consts RPCs, leaders, destinations, constants; every observed actor step replayed through the Lean step function; distinct by delivery order"),
     "C14": dict(modules=["PolytuneModel.Thm.C14"], theorems=["PolytuneModel.Server.C14_no_disturb", "PolytuneModel.Server.C14_msg_no_panic", "PolytuneModel.Server.C14_cex_msg_oob", "PolytuneModel.Server.C14_cex_dup_schedule", "PolytuneModel.Server.C14_cex_illtyped_dup"], server="C14", cases=dict(quick=40, thorough=300), rule="one stray / malformed command injected at a seeded point of a normal run; distinct by (command, point, n)"),
-    "C15": dict(modules=["PolytuneModel.Thm.C15"], theorems=["PolytuneModel.Cancel.C15_cex_notify_self", "PolytuneModel.Cancel.C15_two_signals_sound", "PolytuneModel.Cancel.C15_two_signals_live"], server="C15", cases=dict(quick=60, thorough=400), rule="cancel injected at quiescence after k deliveries or a few yields after a delivery; distinct by (point, victim, n, leader)"),
+    "C15": dict(modules=["PolytuneModel.Thm.C15"], theorems=["PolytuneModel.Cancel.C15_current_all_schedules", "PolytuneModel.Cancel.C15_current_sound", "PolytuneModel.Cancel.C15_current_at_most_one", "PolytuneModel.Cancel.C15_current_live", "PolytuneModel.Cancel.C15_fixpoint", "PolytuneModel.Cancel.C15_cex_notify_self", "PolytuneModel.Cancel.C15_cex_pinned_stuck"], server="C15", cases=dict(quick=60, thorough=400), rule="cancel injected at quiescence after k deliveries or a few yields after a delivery; distinct by (point, victim, n, leader)"),
     "C16": dict(modules=["PolytuneModel.Thm.C14"], theorems=["PolytuneModel.Server.C16_mismatch_after_schedule", "PolytuneModel.Server.C16_mismatch_before_schedule", "PolytuneModel.Server.C16_illtyped"], server="C16", cases=dict(quick=24, thorough=200), rule="program / leader mismatch or ill-typed program at one follower, both arrival orders; distinct by (kind, n, leader, follower, order)"),
     "C17": dict(modules=["PolytuneModel.Thm.C14"], theorems=["PolytuneModel.Server.C17_cex_run_fail_no_output"], server="C17", cases=dict(quick=16, thorough=120), rule="first validate / run / consts RPC fails; permits after quiescence; distinct by (rpc, n, leader, destinations)"),
-    "C18": dict(modules=["PolytuneModel.Thm.C18"], theorems=["PolytuneModel.C18_reject_own_index", "PolytuneModel.C18_reject_invalid_circuit", "PolytuneModel.C18_reject_empty_pout", "PolytuneModel.C18_cex_peval", "PolytuneModel.C18_cex_pout_dup", "PolytuneModel.C18_cex_input_after_gate"], drive="C18", cases=dict(quick=60, thorough=600),
+    "C18": dict(modules=["PolytuneModel.Thm.C18"], theorems=["PolytuneModel.validateArgs_ok_iff", "PolytuneModel.C18_reject_own_index", "PolytuneModel.C18_reject_peval", "PolytuneModel.C18_reject_pout_index", "PolytuneModel.C18_reject_input_len", "PolytuneModel.C18_reject_invalid_circuit", "PolytuneModel.C18_reject_empty_pout", "PolytuneModel.C18_reject_pout_repeats", "PolytuneModel.C18_accepted_pout_ok", "PolytuneModel.C18_input_after_gate_rejected"], drive="C18", cases=dict(quick=60, thorough=600),
                 rule="one invalid argument per single-party run (10 classes), repeated output indices (all parties), validate-ok-but-not-wf circuits (5 classes); distinct by (class, circuit, indices)"),
-    "C19": dict(modules=["PolytuneModel.Thm.C19"], theorems=["PolytuneModel.Buf.C19_refines", "PolytuneModel.Buf.C19_from_new", "PolytuneModel.chunksOf_flatten"], drive="C19", cases=dict(quick=400, thorough=6000),
+    "C19": dict(modules=["PolytuneModel.Thm.C19", "PolytuneModel.Thm.GenArith"], theorems=["PolytuneModel.Buf.C19_refines", "PolytuneModel.Buf.C19_from_new", "PolytuneModel.chunksOf_flatten", "PolytuneModel.Gen_chunkSizeIter_eq"], drive="C19", also=["C19m"], cases=dict(quick=400, thorough=6000),
                 rule="seeded op sequences (non-empty appends, partial/full item reads, chunked reads, len<=12) on both real variants and the model; non-trivial = a read after an append; distinct by op sequence"),
     "C20": dict(modules=["PolytuneModel.Thm.C20"], theorems=["PolytuneModel.C20_scalar_eq_simd", "PolytuneModel.karatsuba_mid"], drive="C20", cases=dict(quick=30, thorough=60), rule="transpose shapes 128 x c and random (single-bit, all-ones, random; unaligned), clmul basis / sparse / dense / random pairs, CR / TCCR hashes, AesRng fills of every sampled length; both dispatching and portable paths vs the Lean definitions; distinct by input"),
 }
@@ -100,10 +100,13 @@ def main():
     if tier == "thorough":      # slow kernel evaluations live in separate modules
         cfg["modules"] = cfg["modules"] + cfg.get("thorough_modules", []); cfg["theorems"] = cfg["theorems"] + cfg.get("thorough_theorems", [])
     broken = []           # broken proof obligations / correspondence
-    # 1. translator: regenerate the Gen/ definitions from the current sources
-    rct, outt, errt = sh(f"python3-vt {ROOT}/translator/rs2lean.py {REPO}/src/block/gf128.rs", timeout=300)
-    if rct != 0 or "def clmul128" not in outt: broken.append({"kind": "translator", "what": "rs2lean failed on src/block/gf128.rs", "log": (outt + errt)[-800:]})
-    else: (LEAN / "PolytuneModel" / "Gen" / "Gf128.lean").write_text(outt)
+    # 1. translator: regenerate the Gen/ definitions from the current sources (written only when the text changes, so lake rebuilds only dependents of a change)
+    for script, arg, target, must in [("rs2lean.py", f"{REPO}/src/block/gf128.rs", "Gf128.lean", "def clmul128"), ("rs2lean_nat.py", f"{REPO}", "Arith.lean", "def bucketSize")]:
+        rct, outt, errt = sh(f"python3-vt {ROOT}/translator/{script} {arg}", timeout=300)
+        if rct != 0 or must not in outt: broken.append({"kind": "translator", "what": f"{script} failed on the current sources (construct outside the accepted subset, or item missing)", "log": (outt + errt)[-800:]})
+        else:
+            tgt = LEAN / "PolytuneModel" / "Gen" / target
+            if not tgt.exists() or tgt.read_text() != outt: tgt.write_text(outt)
     # 2. proofs
     rc, out, err = sh(f"lake build {' '.join(cfg['modules'])} ptmodel", cwd=LEAN, timeout=3000)
     if rc != 0: broken.append({"kind": "theorem", "what": f"lake build {cfg['modules']} failed", "log": (out + err)[-1500:]})
